@@ -241,6 +241,30 @@ def run(ctx):
                                    "correspondence": "PV.Compress.rstep vs ReadStream::Read"}, no_input=True,
                                    summary=f"reader trace not accepted by the controller model (or the codec made no progress): {r[:150]}")
             break
+    # ---------------- xz streams declaring dictionaries of 64 MiB .. 1 GiB (what `xz --lzma2=dict=...` writes; the decoder reserves the
+    # declared size): valid streams, the standard tool expands them, so must ReadCompressed
+    import struct as _st
+    base_xz = bytearray(lzma.compress(b"".join(b"line %d of a text stored with a large dictionary\n" % i for i in range(3000))))
+    hs_ = (base_xz[12] + 1) * 4
+    if base_xz[14] == 0x21 and base_xz[15] == 1:
+        xops, xwant = [], lzma.decompress(bytes(base_xz))
+        for props in (0x1c, 0x1e, 0x1f, 0x20, 0x21, 0x22, 0x24):          # 64 MiB, 128, 192, 256, 384, 512 MiB, 1 GiB
+            y = bytearray(base_xz)
+            y[16] = props
+            y[12 + hs_ - 4:12 + hs_] = _st.pack("<I", zlib.crc32(bytes(y[12:12 + hs_ - 4])))
+            px = subprocess.run(["xz", "-dc"], input=bytes(y), stdout=subprocess.PIPE, stderr=subprocess.PIPE)
+            if px.returncode != 0 or px.stdout != xwant:
+                continue                                  # not a stream the standard tool accepts here (memory): skip
+            xops.append((props, f"z.read - 4096,100000 {hx(bytes(y))}"))
+        xa = pvlib.run_lines(impl, [o for _, o in xops], env=pvlib.san_env(), timeout=600)
+        ctx.count("z.read.xz-dict", len(xops), [o for _, o in xops])
+        for (props, o), x in zip(xops, xa):
+            xs = x.split()
+            if xs[0] != "ok" or unhx(xs[1]) != xwant or "ERR:" in x:
+                pvlib.report_violation(ctx, f"zread-xzdict:{props}", {"ops": [o[:3000]], "impl": x[:300], "lzma2_dict_props_byte": props},
+                                       summary=f"ReadCompressed on a valid xz stream that declares a {2 ** (props // 2 + 12) * (2 + props % 2) // 2 >> 20} MiB dictionary: "
+                                               f"{x[:60]} instead of the {len(xwant)} original bytes")
+                break
     # ---------------- truncation seen through the line reader of a tool (FilePiece turns one kind of exception into "end of
     # input"): a truncated stream on stdin, as a regular file and as a pipe, must make the tool exit non-zero
     text = b"".join(b"line %d of the text that is compressed and then cut\n" % i for i in range(4000))
